@@ -2,6 +2,7 @@ package main
 
 import (
 	"fmt"
+	"go/types"
 	"strings"
 
 	"golang.org/x/tools/go/ssa"
@@ -22,6 +23,7 @@ var storeCommitGuard = guardSpec{
 }
 
 func c02(c *Ctx) {
+	c02PooledHeader(c, "C02.8/pooled-header-fully-rewritten")
 	pk := []string{"embedded/store"}
 	// ---- C02.1 single writer sites -------------------------------------------------------------
 	c.ruleWhoMayCall("C02.1/txlog-writers", "txLog.Append", callTo(appAppend+"@txLog"),
@@ -433,4 +435,71 @@ func storeBase(in ssa.Instruction) ssa.Value {
 	}
 	_, base := fieldOf(st.Addr)
 	return base
+}
+
+// c02PooledHeader: the Tx a commit serializes and hashes is a pooled holder (fetchAllocTx) that still carries the
+// header of whatever transaction used it before. Every field of TxHeader is therefore assigned on every path between
+// taking the holder and hashing it: either in the committing function before performPrecommit is called, or in
+// performPrecommit before the accumulated hash is computed (Eh by BuildHashTree). A field assigned only under a
+// condition, or in one of the two committing functions only, leaks the previous transaction's value into the header
+// that is persisted, hashed into the chain and shipped to replicas.
+func c02PooledHeader(c *Ctx, r string) {
+	ht := c.namedType("embedded/store", "TxHeader")
+	if ht == nil {
+		return
+	}
+	st, ok := ht.Underlying().(*types.Struct)
+	if !ok {
+		return
+	}
+	pp := c.mustFn(r, storeT+"performPrecommit")
+	if pp == nil {
+		return
+	}
+	assigns := func(field string) sitePred {
+		return func(in ssa.Instruction) bool {
+			if storeTo("TxHeader." + field)(in) {
+				return true
+			}
+			return field == "Eh" && callTo("embedded/store.(*Tx).BuildHashTree")(in)
+		}
+	}
+	alh := callTo("embedded/store.(*TxHeader).Alh")
+	inPP := map[string]bool{}
+	for i := 0; i < st.NumFields(); i++ {
+		fld := st.Field(i).Name()
+		q := &pathQ{fn: pp, fromEntry: true, to: alh, via: assigns(fld)}
+		inPP[fld] = len(sites(pp, alh)) > 0 && q.bypass() == nil
+	}
+	n := 0
+	for _, name := range []string{"precommit", "preCommitWith"} {
+		f := c.mustFn(r, storeT+name)
+		if f == nil {
+			continue
+		}
+		from := sites(f, callTo(storeT+"fetchAllocTx"))
+		to := callTo(storeT + "performPrecommit")
+		if len(from) == 0 || len(sites(f, to)) == 0 {
+			c.undecided(r, fnName(f), "fetchAllocTx / performPrecommit not found")
+			continue
+		}
+		for i := 0; i < st.NumFields(); i++ {
+			fld := st.Field(i).Name()
+			n++
+			construct := fnName(f) + ":TxHeader." + fld
+			if inPP[fld] {
+				c.ok(r, construct, c.pos(pp.Pos()), "assigned by performPrecommit on every path to Alh()")
+				continue
+			}
+			q := &pathQ{fn: f, from: from, to: to, via: assigns(fld)}
+			if w := q.bypass(); w != nil {
+				c.fail(r, construct, c.pos(w[len(w)-1].Pos()), "TxHeader."+fld+" of the pooled holder is not assigned on every path from fetchAllocTx to the hashing of the header: the value left by the previous user of the holder is persisted and hashed ("+c.witnessStr(w)+")")
+			} else {
+				c.ok(r, construct, c.pos(f.Pos()), "assigned on every path from fetchAllocTx to performPrecommit")
+			}
+		}
+	}
+	if n < 18 {
+		c.undecided(r, "floor", fmt.Sprintf("%d (function, field) pairs examined, expected 2 x 9", n))
+	}
 }
